@@ -149,6 +149,7 @@ class Sim:
         self.pct_points = ()
         self.script = []
         self.script_actors = []
+        self.sticky_den = 8          # "sticky": the running actor is pre-empted with probability 1/sticky_den per step
         self.locks = LockTable()
         self.outside_writes = []
         self.crash_prefixes = ()
@@ -258,7 +259,7 @@ class Sim:
             order = runnable
         if d == "sticky":
             if self.last in runnable:
-                if not self.stream.coin(1, 8, "preempt"):
+                if not self.stream.coin(1, self.sticky_den, "preempt"):
                     return order[0]
                 return order[self.stream.draw(1, len(order) - 1, "switch")]
             return order[self.stream.draw(0, len(order) - 1, "next")]
